@@ -721,14 +721,14 @@ def pred_c08(ops, impl):
             if items and len(items) > 2 and isinstance(items[2], list) and items[2] and items[2][0] == "exec":
                 sc = items[2][2] if len(items[2]) > 2 else []
                 if isinstance(sc, list) and all(isinstance(a, list) and a and a[0] in ("w", "rm", "rd", "rng", "rngk", "fail") for a in sc):
-                    target = None if all(a[0] in ("rd", "rng", "rngk", "fail") for a in sc) else items[2][1]
+                    target = None if all(a[0] in ("rd", "rng", "rngk", "fail") for a in sc) else b.get(items[2][1], items[2][1])
             if target is ALL:
                 stale = set(dumps)
             elif target is not None:
                 stale.add(target)
         elif t[0] in ("cs-set", "cs-rm") and len(t) >= 3:
             # App::contract_storage_mut(c): exactly the entry (c, key) changes
-            c = t[1]
+            c = b.get(t[1], t[1])
             if out != "ok":
                 stale.add(c)
             elif c in dumps and c not in stale:
@@ -745,13 +745,13 @@ def pred_c08(ops, impl):
                 return "op %d: contract_storage(%s).get(%s) = %s right after contract_storage_mut set it to %s" % (n, t[1], t[2], out, p[3])
             if p and p[0] == "cs-rm" and p[1:3] == t[1:3] and impl[n - 1] == "ok" and out != "none":
                 return "op %d: contract_storage(%s).get(%s) = %s right after contract_storage_mut removed it" % (n, t[1], t[2], out)
-            if t[1] in dumps and t[1] not in stale:
-                want = recs_of(dumps[t[1]]).get(_hx(_unhex(t[2])))
+            if b.get(t[1], t[1]) in dumps and b.get(t[1], t[1]) not in stale:
+                want = recs_of(dumps[b.get(t[1], t[1])]).get(_hx(_unhex(t[2])))
                 got = out[5:] if out.startswith("some ") else None
                 if want != got:
                     return "op %d: contract_storage(%s).get(%s) = %s but the contract's state holds %s" % (n, t[1], t[2], out, want)
         elif t[0] == "wdump":
-            c = t[1]
+            c = b.get(t[1], t[1])     # symbols may alias one address (non-injective address generators)
             if c in dumps and c not in stale and dumps[c] != out:
                 return "op %d: storage of %s changed (%s -> %s) by operations that did not write to it" % (n, c, dumps[c][:80], out[:80])
             dumps[c] = out
